@@ -158,7 +158,10 @@ class Corpus:
         """variants: list of (vname, [Field], explicit_discr or None, from_version)"""
         lines = ["#[derive(Savefile)]"]
         if repr:
-            lines.append(f"#[repr({repr})]")
+            # "C; u16" = two separate #[repr] attributes (same meaning as #[repr(C, u16)])
+            for part in repr.split(";"):
+                lines.append(f"#[repr({part.strip()})]")
+            repr = ", ".join(x.strip() for x in repr.split(";"))
         lines.append(f"pub enum {name} {{")
         # an explicit discriminant may be given as (source text, value): `b'A'`, `1 << 4`, a named constant
         variants = [(vn, fields, d, frm) for vn, fields, d, frm in variants]
@@ -279,6 +282,12 @@ def fam_prim(c):
     L += c.enum(mod, "E_C_explicit_ne", [("A", [], 2, 0), ("B", [], 5, 0)], repr="C", family="ENUM")
     L += c.enum(mod, "E_u8C_explicit_fields_ne", [("A", F0("u32"), 2, 0), ("B", F0("u32"), 5, 0)], repr="u8, C", family="ENUM")
     L += c.enum(mod, "E_C_unit", [("A", [], None, 0), ("B", [], None, 0)], repr="C", family="ENUM")
+    # per-variant layout of a plain repr(u8) enum: no padding after the tag in the first variant, one byte in the second
+    L += c.enum(mod, "E_u8_mixed_pad", [("Bytes", F0("u8", "u8", "u8"), None, 0), ("Word", F0("u16"), None, 0)], repr="u8", family="ENUM")
+    # the integer repr hint given in a second #[repr] attribute
+    L += c.enum(mod, "E_C_u16_split_repr", [("A", F0("u32"), None, 0), ("B", [], None, 0)], repr="C; u16", family="ENUM")
+    # a versioned variant that is followed by an unversioned one
+    L += c.enum(mod, "E_versioned_middle", [("A", [], None, 0), ("B", F0("u32"), None, 1), ("C", F0("u16"), None, 0)], family="ENUM", cur_version=1)
     # explicit discriminants that are not integer literals (byte literal, shift expression, named constant) and differ from the index
     L.append("pub const E_NONLIT_BASE: u8 = 0x20;")
     L += c.enum(mod, "E_u8_nonliteral", [("A", [], ("b'A'", 65), 0), ("B", [], ("1 << 4", 16), 0), ("C", [], ("E_NONLIT_BASE", 32), 0)],
